@@ -7,5 +7,7 @@ CONSTANTS
   GuardFix = TRUE
   CleanupFix = FALSE
   SerialReg = TRUE
+  MaxBatch = 0
+  RetryEnds = TRUE
 INVARIANTS AllGone NoCrash NewestSender
 CHECK_DEADLOCK FALSE
